@@ -172,6 +172,12 @@ func verifPeerUp(c *Core, m *verifMockCLA) {
 	c.checkPendingBundles()
 }
 
+// verifPeerUpNoRetry registers a convergence sender without running the pending-bundles job for it.
+func verifPeerUpNoRetry(c *Core, m *verifMockCLA) {
+	c.claManager.Register(m)
+	c.routing.ReportPeerAppeared(m)
+}
+
 // verifPeerDown: what the manager + Core.handler do on PeerDisappeared, minus the restart.
 func verifPeerDown(c *Core, m *verifMockCLA) {
 	c.claManager.Unregister(m)
